@@ -811,3 +811,79 @@ def main(ctx):
 
     subunits = [(f, k, o, keep) for f in FUNCS for k in ("recarray", "subclass") for o in ("<", ">") for keep in (False, True)]
     ctx.lattice("in-place-on-subclasses", subunits, one_sub, bounds=dict(kinds=["numpy.recarray", "plain ndarray subclass"]))
+
+    # ------------------------------------------------------------ every numpy type CHARACTER (round 8)
+    # numpy has several distinct types behind one width ('l' and 'q' are both 8-byte integers on Linux-64, 'i' / 'l' /
+    # 'p' etc.): their .str is the same, their .char / .num are not.  Code that recognises ordered columns by type
+    # character must know all of them: each character as a plain array, as the ONLY multi-byte column of a table
+    # (next to 1-byte columns - nothing else decides the order) and as a sub-array column.
+    CHARS = "?bhilqpBHILQPefdgFDGSUMm"
+
+    def _dt_of(ch, order):
+        if ch == "S":
+            return np.dtype("S3")
+        if ch == "U":
+            return np.dtype(order + "U2")
+        if ch in "Mm":
+            return np.dtype(order + ch + "8[s]")
+        return np.dtype(ch).newbyteorder(order)
+
+    def _vals_of(dt, n):
+        if dt.kind == "S":
+            return np.array([b"a", b"", b"abc", b"zz"][:n], dtype=dt)
+        if dt.kind == "U":
+            return np.array(["a", "", "αb", "z"][:n], dtype=dt)
+        if dt.kind == "b":
+            return np.array([True, False, True, True][:n], dtype=dt)
+        if dt.kind == "c":
+            return np.array([1 + 2j, -3.5 + 0.25j, 258 - 1j, 0.5j][:n]).astype(dt)
+        if dt.kind in "Mm":
+            return np.array([1, 258, 70000, 3][:n], dtype="i8").astype(dt)
+        return np.array([1, 2, 100, 3][:n]).astype(dt)
+
+    def one_char(case, rec):
+        func, ch, order, layout = case
+        dt = _dt_of(ch, order)
+        n = 3
+        if layout == "plain":
+            a = _vals_of(dt, n)
+            cols = [None]
+        elif layout == "only-column":
+            a = np.zeros(n, dtype=[("b", "u1"), ("k", dt), ("s", "S1")])
+            a["k"] = _vals_of(dt, n)
+            a["b"] = [1, 2, 3]
+            cols = ["k"]
+        else:
+            a = np.zeros(n, dtype=[("k", dt, (2,)), ("f", "?")])
+            a["k"][:, 0] = _vals_of(dt, n)
+            a["k"][:, 1] = _vals_of(dt, n)[::-1]
+            cols = ["k"]
+        before = a.tobytes()
+        try:
+            r = fn_of[func](a)
+        except Exception as e:
+            return rec.fail(case, "%s on type character %r (%s, %s) raised %s: %s" % (func, ch, dt.str, layout, type(e).__name__, e))
+        if a.tobytes() != before:
+            return rec.fail(case, "%s (not in place) changed its argument" % func)
+        want = {"to_native": NATIVE, "to_big_endian": ">", "to_little_endian": "<"}[func]
+        for c in cols:
+            src = a if c is None else a[c]
+            out = np.asarray(r) if c is None else np.asarray(r)[c]
+            if out.shape != src.shape:
+                return rec.fail(case, "%s: shape %r became %r" % (func, src.shape, out.shape))
+            eq = (out == src) if src.dtype.kind not in "SU" else (out.astype(src.dtype.newbyteorder("=")) == src.astype(src.dtype.newbyteorder("=")))
+            if not np.all(eq):
+                return rec.fail(case, "%s on type character %r (%s): values changed: %r -> %r" % (func, ch, layout, src.tolist(), out.tolist()))
+            odt = out.dtype.base
+            ordered = odt.itemsize > 1 and odt.kind not in "SVb"
+            if ordered:
+                bo = NATIVE if odt.byteorder == "=" else odt.byteorder
+                if bo != want:
+                    return rec.fail(case, "%s on type character %r (%s, input %s): the result declares %s, requested order %r"
+                                    % (func, ch, layout, dt.str, odt.str, want))
+        rec.ok(case, outcome="char:%s:%s" % (layout, "ordered" if dt.itemsize > 1 and dt.kind not in "SVb" else "orderless"),
+               nontrivial=dt.itemsize > 1, calls=1)
+
+    chunits = [(f, ch, o, lay) for f in ("to_native", "to_big_endian", "to_little_endian") for ch in CHARS for o in ("<", ">")
+               for lay in ("plain", "only-column", "subarray-column")]
+    ctx.lattice("type-characters", chunits, one_char, bounds=dict(characters=CHARS, layouts=["plain", "only-column", "subarray-column"], orders=["<", ">"]))
